@@ -64,7 +64,15 @@ CLAIMED = {
                   "and compares every cell, unknown ids, sheet names, header/page location and file names.",
              note="Trusts TLC, gen/excel.py, gen/sqpack.py; one known finding (single sub-row rows) is listed, not suppressed for other inputs.",
              ref="5 C05"),
+ "C11": dict(cat="model_checking", tech="TLC evaluation of Blowfish.tla with pi-derived tables against the published ECB vectors + TLC trace validation of real encrypt/decrypt and of the constant tables",
+             text="Blowfish.tla is the 16-round Feistel network and key schedule over tables generated from the hexadecimal digits of pi; TLC confirms the "
+                  "seven classic vectors and the inversion/framing laws. Real Blowfish::new/encrypt/decrypt runs for vector keys, long keys with differing "
+                  "tails and random keys over every message length 0..40 (plus KiB messages) are recomputed by TLC, and all 1042 constant words are "
+                  "compared with the pi expansion through a guarded accessor.",
+             note="Trusts TLC, gen/pi_hex.py's big-integer arithmetic (cross-checked by the published vectors), hook H1 (add-only, cfg(physis_verif)).",
+             ref="5 C11"),
 }
+HOOK_COMMITS = ["5eeb305"]
 REASON_PENDING = "check not built yet in this session (see DESIGN.md section 5); will be claimed when its trace specification exists"
 
 def main():
@@ -85,6 +93,8 @@ def main():
         else:
             man["not_applicable"].append({"property_id": i, "reason": REASON_PENDING})
     man["engines"][0]["serves_properties"] = sorted(CLAIMED)
+    man["hooks"]["source_commits"] = HOOK_COMMITS
+    man["setup_cmd"] = "cd /verif && python3 gen/pi_hex.py && cd shim && CARGO_NET_OFFLINE=true cargo build --offline --quiet"
     json.dump(man, open(os.path.join(ROOT, "MANIFEST.json"), "w"), indent=1)
 
 if __name__ == "__main__":
